@@ -30,7 +30,7 @@ func TestC05RRWindow(t *testing.T) {
 	sub.Floor("parked-requests", 0.2)
 	lab.Check(t, sub, 2000, 40000, func(rt *rapid.T) {
 		n0 := rapid.IntRange(1, 8).Draw(rt, "n0")
-		p, err := newPool("round_robin", lab.Ones(n0))
+		p, err := newPool("round_robin", rrWeights(rt, n0))
 		if err != nil {
 			rt.Fatalf("harness: %v", err)
 		}
